@@ -1,12 +1,13 @@
 CONSTANTS
   Ns = {1, 2, 3}
   Cs = {1, 2, 3}
-  MaxNow = 6
+  MaxNow = 5
   Steps = {1, 2}
   StrictCool = FALSE
   NoReset = FALSE
   SwallowApp = FALSE
   ResetOnRecover = FALSE
+  StaleGuard = FALSE
 SPECIFICATION MCSpec
 INVARIANT W_NeverOpen
 CONSTRAINT Bound
